@@ -467,6 +467,50 @@ class EltoritoEntry:
         # are defined to be 512 bytes.
         return self.sector_count * 512
 
+    def emulated_length(self, disk_mbr):
+        # type: (bytes) -> int
+        """
+        Get the length, in bytes, of the disk image that this El Torito Entry
+        emulates.  With floppy and hard disk emulation the sector count of the
+        entry is always 1; the size of the image follows from the media type
+        (floppy) or from the partition table of the image (hard disk).
+
+        Parameters:
+         disk_mbr - The first 512 bytes of the boot image.
+        Returns:
+         The length in bytes of the emulated disk image, or 0 if this entry does
+         not use emulation or the length cannot be determined.
+        """
+        if not self._initialized:
+            raise pycdlibexception.PyCdlibInternalError('El Torito Entry not initialized')
+
+        if self.boot_media_type == self.MEDIA_12FLOPPY:
+            return 2400 * 512
+        if self.boot_media_type == self.MEDIA_144FLOPPY:
+            return 2880 * 512
+        if self.boot_media_type == self.MEDIA_288FLOPPY:
+            return 5760 * 512
+        if self.boot_media_type != self.MEDIA_HD_EMUL:
+            return 0
+
+        if len(disk_mbr) != 512 or disk_mbr[510:512] != b'\x55\xaa':
+            return 0
+
+        # The image has the geometry given by the CHS address of the last
+        # sector of its one partition (see hdmbrcheck() for the layout).
+        geometry_sectors = 0
+        for offset in (446, 462, 478, 494):
+            (parttype, e_head, e_seccyl,
+             e_cyl) = struct.unpack_from('=BBBB', disk_mbr, offset + 4)
+            if parttype == 0:
+                continue
+            if geometry_sectors != 0:
+                return 0
+            cyl = ((e_seccyl & 0xC0) << 2) | e_cyl
+            geometry_sectors = (cyl + 1) * (e_head + 1) * (e_seccyl & 0x3f)
+
+        return geometry_sectors * 512
+
     def set_data_length(self, length):
         # type: (int) -> None
         """
